@@ -226,6 +226,39 @@ class Records:
         self.deps = {}
 
 
+def depfile_deps(c):
+    """dependency names of a one-rule depfile as the simulated commands write them (GCC/Clang spelling: backslash-space,
+    backslash-#, $$; backslash-newline continues the line)"""
+    toks, cur, i, n = [], "", 0, len(c)
+    while i < n:
+        ch = c[i]
+        if ch == "\\" and i + 1 < n and c[i + 1] == "\n":
+            if cur:
+                toks.append(cur)
+            cur = ""
+            i += 2
+        elif ch == "\\" and i + 1 < n and c[i + 1] in " #":
+            cur += c[i + 1]
+            i += 2
+        elif ch == "$" and i + 1 < n and c[i + 1] == "$":
+            cur += "$"
+            i += 2
+        elif ch in " \t\r\n":
+            if cur:
+                toks.append(cur)
+            cur = ""
+            i += 1
+        else:
+            cur += ch
+            i += 1
+    if cur:
+        toks.append(cur)
+    for k, t in enumerate(toks):
+        if t.endswith(":"):
+            return [x for x in toks[k + 1:] if x != "\\"]
+    return []
+
+
 def discovered(graph, st, recs, world_files, world_mtimes=None):
     """recorded discoveries that currently count for statement st (or None if the record is missing)"""
     if st["deps"] in ("gcc", "msvc"):
@@ -241,8 +274,7 @@ def discovered(graph, st, recs, world_files, world_mtimes=None):
         c = world_files.get(st["depfile"])
         if c is None:
             return None
-        body = c.split(":", 1)[1] if ":" in c else ""
-        return [t for t in body.replace("\\\n", " ").split() if t != "\\"]
+        return depfile_deps(c)
     return []
 
 
